@@ -218,7 +218,9 @@ pub fn validate_denom(denom: impl Into<String>) -> StdResult<String> {
 pub fn validate_ibc_denom(ibc_denom: impl Into<String>) -> StdResult<String> {
     let ibc_denom: String = ibc_denom.into();
 
-    if ibc_denom.starts_with("ibc/") && ibc_denom.strip_prefix("ibc/").unwrap().len() == 64 {
+    if ibc_denom.starts_with("ibc/")
+        && ibc_denom.strip_prefix("ibc/").unwrap().chars().count() == 64
+    {
         Ok(ibc_denom)
     } else {
         Err(StdError::generic_err("ibc denom is invalid"))
